@@ -133,7 +133,7 @@ func runC15(c *core.Ctx) {
 						what = "declaration hash"
 					}
 					key := core.FuncKey(f) + " uses " + what
-					if bad, pos := c15Taint(ld); bad != "" {
+					if bad, pos := c15Taint(c, ld); bad != "" {
 						c.Bad("R15b", key, pos, "a value derived from the "+what+" (process-history dependent / random) flows into "+bad+": output would differ between runs")
 					} else {
 						c.OK("R15b", key, core.InstrPos(ld), "used only as map/cache key or in comparisons")
@@ -316,7 +316,7 @@ func runC15(c *core.Ctx) {
 }
 
 // c15Taint follows a history-dependent value forward; returns a description of the first disallowed sink.
-func c15Taint(src ssa.Value) (string, token.Pos) {
+func c15Taint(c *core.Ctx, src ssa.Value) (string, token.Pos) {
 	seen := map[ssa.Value]bool{}
 	work := []ssa.Value{src}
 	for len(work) > 0 {
@@ -385,7 +385,33 @@ func c15Taint(src ssa.Value) (string, token.Pos) {
 					return "a stored field/heap location", pos
 				}
 			case *ssa.Return:
-				return "a return value", pos
+				// the result of a helper whose callers are all known (unexported, never used as a value, not reachable
+				// through an interface) is followed to its use at every call site; anything else leaves the analysed code
+				fn := x.Parent()
+				sites, closed := f2CallSites(c, fn)
+				if !closed || len(sites) == 0 {
+					return "a return value", pos
+				}
+				for i, res := range x.Results {
+					if res != v {
+						continue
+					}
+					for _, s := range sites {
+						call, isCall := s.(*ssa.Call)
+						if !isCall {
+							continue // go/defer: the result is discarded
+						}
+						if len(x.Results) == 1 {
+							work = append(work, call)
+							continue
+						}
+						for _, r := range core.Referrers(call) {
+							if ex, ok := r.(*ssa.Extract); ok && ex.Index == i {
+								work = append(work, ex)
+							}
+						}
+					}
+				}
 			case ssa.CallInstruction:
 				o := core.CalleeObj(x)
 				full := ""
